@@ -11,6 +11,7 @@ import vlib, vmeshlib, vfemlib
 
 LEVEL = "model_checking"
 SHAPES = [("simplex", 2), ("simplex", 3), ("hypercube", 2), ("hypercube", 3)]
+BOUND_PROJ = ("lagrange3", "bernstein2")
 PERMS = ["none", "random", "lexicographic", "colored", "cmk", "cmk_rev", "gcmk", "gcmk_rev"]
 MESHDIR = os.path.join(vlib.REPO, "data", "meshes")
 # small shipped meshes (thorough tier): unstructured, non-affine cells
@@ -64,15 +65,19 @@ def gen_meshes(chk, tier):
     return meshes
 
 
-def cub_for(el, variant):
-    q = {"lagrange1": 1, "lagrange2": 2, "discontinuous0": 0, "discontinuous1": 1, "crorav": 1}[el]
-    return "auto-degree:%d" % (max(1, 2 * q) + (1 if variant == 0 else 0))
+def cub_for(el, fam, dim, variant):
+    """a rule of sufficient degree: the truncation needs the coarse-cell rule and the composite child rule to integrate phi_i phi_j |det J| equally,
+    i.e. exactly: degree 2q on affine simplices, 2q + (dim - 1) per variable on multilinear hypercubes; variant 0 adds one degree"""
+    q = {"lagrange1": 1, "lagrange2": 2, "discontinuous0": 0, "discontinuous1": 1, "crorav": 1, "lagrange3": 3, "bernstein2": 2}[el]
+    deg = max(1, 2 * q + ((dim - 1) if fam == "hypercube" else 0))
+    return "auto-degree:%d" % (deg + (1 if variant == 0 else 0))
 
 
 def make_cases(tier, table, meshes):
     els = {}
     for t in table:
-        if t["nodal"] and t["pscale"] > 0 and t["dim"] >= 2:
+        # families with exact tables (integer projection) and the remaining nested families (Lagrange-3, Bernstein-2: projection mode, ps = 0)
+        if t["dim"] >= 2 and ((t["nodal"] and t["pscale"] > 0) or (t["nested"] and t["el"] in BOUND_PROJ)):
             els.setdefault((t["fam"], t["dim"]), []).append(t)
     cases = []
     n = 0
@@ -80,18 +85,20 @@ def make_cases(tier, table, meshes):
     def add(m, t, perm, cubv=0):
         nonlocal n
         c = {"id": "c%d" % n, "fam": m["fam"], "dim": m["dim"], "el": t["el"], "src": m["src"], "srcname": m["srcname"], "perm": perm,
-             "ps": t["pscale"], "seed": vlib.seed() * 7919 + n, "cub": cub_for(t["el"], cubv), "maxcells": m.get("maxcells", 600),
+             "ps": t["pscale"] if t["nodal"] else 0, "nested": bool(t["nested"]), "seed": vlib.seed() * 7919 + n, "cub": cub_for(t["el"], m["fam"], m["dim"], cubv), "maxcells": m.get("maxcells", 600),
              "mk": m.get("k", 0)}
+        # (deduct_topology_from_top on tetrahedra is excluded: known finding C10-tria-facet-flip-edges makes those meshes inconsistent)
+        tet = m["fam"] == "simplex" and m["dim"] == 3
         if m["srcname"].startswith("gen:"):
             # route "deduct" = ConformalMesh::deduct_topology_from_top, "factory" = RedundantIndexSetBuilder (mesh file reader)
-            c["src"] = {"raw": dict(m["src"]["raw"], route="deduct" if n % 2 == 0 else "factory")}
+            c["src"] = {"raw": dict(m["src"]["raw"], route="deduct" if (n % 2 == 0 and not tet) else "factory")}
         cases.append(c)
         n += 1
 
     for m in meshes:
         fam, dim, mode, k = m["fam"], m["dim"], m["mode"], m["k"]
         for ti, t in enumerate(els.get((fam, dim), [])):
-            heavy = t["nloc"] >= 10        # Lagrange-2 in 3D
+            heavy = t["nloc"] >= 10        # Lagrange-2/3, Bernstein-2 in 3D (and Lagrange-3 on triangles)
             if tier == "quick" and dim == 3:
                 # 3D gluings / rotations are sub-sampled in the quick tier (all of them in the thorough tier)
                 stride = {"pair": (24 if fam == "hypercube" else 8) if heavy else (12 if fam == "hypercube" else 6), "single": 6 if heavy else 3}[mode]
@@ -104,7 +111,7 @@ def make_cases(tier, table, meshes):
         lvl = 0 if (fam == "simplex" and dim == 3) else 1       # 24 tetrahedra / 8 hexahedra / 4 quadrilaterals / 16 triangles
         facs = [("unitcube%d" % lvl, {"fac": "unitcube", "level": lvl})]
         if tier == "thorough":
-            facs.append(("struct", {"fac": "struct", "nx": 3, "ny": 2, "nz": 2}))
+            facs.append(("struct", {"fac": "struct", "nx": 4, "ny": 2, "nz": 2}))
         if dim == 2:
             facs.append(("star", {"fac": "star"}))
         for fi, (nm, src) in enumerate(facs):
@@ -161,7 +168,7 @@ def _run(chk, tier, bins, gdir):
     for c in cases:
         c["out"] = os.path.join(gdir, c["id"] + ".json")
     good = []
-    worst = {"dev_p": 0.0, "dev_tp": 0.0, "dev_v": 0.0}
+    worst = {"dev_p": 0.0, "dev_tp": 0.0, "dev_v": 0.0, "dev_fn": 0.0, "vdev": 0.0, "rdev": 0.0}
     for fam in ("simplex", "hypercube"):
         cs = [c for c in cases if c["fam"] == fam]
         res = vlib.run_cases(binary_for(fam, bins), cs, tmo=120, shards=8)
@@ -171,7 +178,8 @@ def _run(chk, tier, bins, gdir):
                 continue
             if r.get("ok") is True:
                 good.append(c)
-                for k in worst:
+                keys = (("dev_p", "dev_v") if c["ps"] > 0 else ("vdev", "rdev")) + (("dev_tp", "dev_fn") if c["nested"] else ())
+                for k in keys:
                     worst[k] = max(worst[k], r.get(k, 0.0))
                 continue
             desc = r.get("why") or ("outcome %s: %s" % (r.get("outcome"), (r.get("stderr") or "")[-600:]))
@@ -213,18 +221,20 @@ def _run(chk, tier, bins, gdir):
                 "rotation of one cell; plus structured factories (and shipped unstructured meshes in the thorough tier); each mesh is refined once by the real "
                 "code, permuted by one of the 8 strategies, and the transfer operators of every element family with an exact basis in spec/RefElement.tla are "
                 "assembled by the real code; TLC recomputes P from the refinement topology and judges ProlExact, ProlWellDefined, RestIsTranspose(+bitwise), "
-                "TruncLeftInverse, VectorProlAgrees, TransferProl/RestAgrees, DofMap; a case = (mesh, route, family, strategy, cubature); non-trivial = "
+                "TruncLeftInverse, VectorProlAgrees, TransferProl/RestAgrees, DofMap, and ProlExactFunction (function-level projection, all nested families); a case = (mesh, route, family, strategy, cubature); non-trivial = "
                 "P has non-zero entries; quick tier: 3D gluings are sub-sampled (stride 2-8), thorough: all")
     for d in full[:: max(1, len(full) // 3)][:3]:
         c = byid[d["id"]]
         chk.sample({"id": d["id"], "mesh": c["srcname"], "fam": c["fam"], "dim": c["dim"], "el": c["el"], "perm": c["perm"], "verdict": verdicts[d["id"]],
-                    "P_row0": d["P"][0], "ps": d["ps"]})
+                    "P_row0": (d["P"][0] if d["P"] else None), "ps": d["ps"], "fn": d["fn"]})
     chk.assumptions = ["the origin certificate (which coarse entity a fine entity descends from) is computed by the glue code but every entry is checked by "
                        "the specification on integer coordinates (MeshTopo!VertexOrigin, IsParent)",
                        "entries of the assembled matrices are projected to integers at the scale given by the specification if within 1e-11 of a multiple of "
                        "1/scale (measured deviation <= 1e-13); anything else fails ProlExact",
-                       "exact families: Lagrange-1/2, Discontinuous-0, Discontinuous-1 and Crouzeix-Raviart on simplices (averaged nodal definition); Global/muxed "
-                       "transfer objects and the remaining families are not covered",
+                       "exact families (P recomputed by TLC): Lagrange-1/2, Discontinuous-0, Discontinuous-1 and Crouzeix-Raviart on simplices (averaged nodal "
+                       "definition); Lagrange-3 and Bernstein-2 through the function-level projection only (u_h(P x) = u_H(x) at lattice points, tolerance "
+                       "1e-9 (1 + magnitude), parent cell and coarse reference point from the harness' own inverse mapping); Global/muxed transfer objects and "
+                       "the non-nested families (Rannacher-Turek, Q1~, P2-bubble, Hermite, Argyris, BFS, CDSSY) are not covered",
                        "shipped mesh files are snapped to a dyadic grid before refinement (a still valid mesh)"]
 
 
